@@ -350,6 +350,39 @@ func c08History(ctx *Ctx, pol string, h int) bool {
 				}
 			}
 		}
+		// structural invariant of the eviction heaps at the quiescent point: no entry precedes its parent in
+		// the heap's own order (LFU: fewer uses first; LRU: the order the heap itself defines, by access time),
+		// each key at most once, no nil entries
+		for dbi, hk := range d.LFU {
+			seenK := map[string]bool{}
+			for idx, k := range hk {
+				if k == "<nil>" || seenK[k] {
+					return fail("heap", fmt.Sprintf("the LFU heap of database %d holds a nil or duplicate entry at position %d: %q", dbi, idx, hk))
+				}
+				seenK[k] = true
+				if idx > 0 {
+					par := hk[(idx-1)/2]
+					if d.LFUCount[dbi][k] < d.LFUCount[dbi][par] {
+						return fail("heap", fmt.Sprintf("the LFU heap of database %d is not a heap: %q (count %d) at position %d is below its parent %q (count %d) although it was used less often; heap %q", dbi, k, d.LFUCount[dbi][k], idx, par, d.LFUCount[dbi][par], hk))
+					}
+				}
+			}
+		}
+		for dbi, hk := range d.LRU {
+			seenK := map[string]bool{}
+			for idx, k := range hk {
+				if k == "<nil>" || seenK[k] {
+					return fail("heap", fmt.Sprintf("the LRU heap of database %d holds a nil or duplicate entry at position %d: %q", dbi, idx, hk))
+				}
+				seenK[k] = true
+				if idx > 0 {
+					par := hk[(idx-1)/2]
+					if d.LRUTime[dbi][k] > d.LRUTime[dbi][par] {
+						return fail("heap", fmt.Sprintf("the LRU heap of database %d is not a heap in its own order: %q (time %d) at position %d is below its parent %q (time %d); heap %q", dbi, k, d.LRUTime[dbi][k], idx, par, d.LRUTime[dbi][par], hk))
+					}
+				}
+			}
+		}
 		ctx.Class(pol + "|bookkeeping-consistent")
 		for lid, st := range live {
 			if _, ok := d.DBs[st.db][strings.SplitN(lid, ":", 2)[1]]; !ok {
